@@ -304,6 +304,27 @@ theorem C09_keys_remove (sw : Sw) (m : VPairs) (key : Value) :
 example : distinctKeys .now (.cons (.str ['a'] false) .null (.cons (.str ['b'] false) .null .nil)) = true := by
   decide +kernel
 
+/-- The same three laws in the form the driver checks on grass's own answers (`orderKept`):
+    removal leaves a subsequence of the keys … -/
+theorem C09_order_remove (sw : Sw) (m : VPairs) (key : Value) :
+    ((keys (remove sw m key)).toList).Sublist (keys m).toList := by
+  rw [C09_keys_remove]; exact List.filter_sublist
+
+/-- … `map.set` keeps the old keys as a prefix … -/
+theorem C09_order_insert (sw : Sw) (m : VPairs) (k v : Value) :
+    (keys m).toList <+: (keys (insert sw m k v)).toList := by
+  rw [C09_keys_insert]
+  split
+  · exact List.prefix_refl _
+  · exact List.prefix_append _ _
+
+/-- … and so does `map-merge` (no hypothesis on the merged map needed). -/
+theorem C09_order_merge (sw : Sw) : ∀ (b a : VPairs), (keys a).toList <+: (keys (merge sw a b)).toList
+  | .nil, a => by simp [merge]
+  | .cons k v t, a => by
+    simp only [merge]
+    exact List.IsPrefix.trans (C09_order_insert sw a k v) (C09_order_merge sw t (insert sw a k v))
+
 /-! ## the container invariant is preserved -/
 
 theorem C09_mapWf_insert (sw : Sw) (m : VPairs) (k v : Value) (h : distinctKeys sw m = true) :
